@@ -12,6 +12,7 @@ import (
 	"github.com/gopher-fleece/gleece/v2/generator/swagen"
 	"github.com/gopher-fleece/gleece/v2/infrastructure/logger"
 	"github.com/gopher-fleece/gleece/v2/infrastructure/validation"
+	"github.com/gopher-fleece/gleece/v2/infrastructure/verifhook"
 	"github.com/titanous/json5"
 )
 
@@ -33,17 +34,20 @@ func LoadGleeceConfig(configPath string) (*definitions.GleeceConfig, error) {
 	if err != nil {
 		return nil, fmt.Errorf(`could not read config file from "%s" - "%v"`, configPathToUse, err.Error())
 	}
+	verifhook.Emit("ConfigRead", "path", configPathToUse)
 
 	// Unmarshal the JSON content into the struct
 	var config definitions.GleeceConfig
 	err = json5.Unmarshal(fileContent, &config)
 	if err != nil {
+		verifhook.Emit("ConfigRejected", "stage", "parse")
 		return nil, fmt.Errorf(`could not unmarshal config file "%s" to JSON5 - "%v"`, configPathToUse, err)
 	}
 
 	// Validate the struct
 	err = validation.ValidateStruct(config)
 	if err != nil {
+		verifhook.Emit("ConfigRejected", "stage", "validate")
 		return nil, fmt.Errorf(
 			`configuration file "%s" is invalid - "%s"`,
 			configPathToUse,
@@ -51,6 +55,7 @@ func LoadGleeceConfig(configPath string) (*definitions.GleeceConfig, error) {
 		)
 	}
 
+	verifhook.Emit("ConfigAccepted")
 	return &config, nil
 }
 
